@@ -38,7 +38,7 @@ func init() {
 		Rule:     "a case = thread programs (Push/Pop/Len/PopWait(-1)/PopWait(0) calls) + a schedule of atomic steps executed on the real sync_list.go under the deterministic scheduler; non-trivial = at least one context switch while the thread switched away from is inside a call; distinct by hash of programs+schedule",
 		Classify: classify,
 		Facts:    facts,
-		Extras:   []core.Extra{raceExtra, timedExtra},
+		Extras:   []core.Extra{raceExtra, timedExtra, uniprocExtra},
 		Parallel: false,
 		Assumptions: []string{
 			"sync/atomic operations are sequentially consistent and DRF-SC holds (Go memory model)",
@@ -71,6 +71,7 @@ func impl(c core.Case) []string {
 		return out
 	}
 	e := drive.NewExec(tg, progs)
+	e.S.Procs = headerProcs(c.Lines[0])
 	defer e.Close()
 	out[0] = "ok"
 	for i := 1; i < len(c.Lines); i++ {
@@ -122,6 +123,11 @@ func check(c core.Case, out []string) *core.Failure {
 		if strings.HasPrefix(st.Access, "st tail=") {
 			if v, err := strconv.Atoi(strings.TrimPrefix(st.Access, "st tail=")); err == nil {
 				tailIdx = v
+			}
+		}
+		if strings.HasPrefix(st.Access, "st head=") { // not in today's code: a head published by a store
+			if v, err := strconv.Atoi(strings.TrimPrefix(st.Access, "st head=")); err == nil {
+				headIdx = v
 			}
 		}
 		if strings.HasPrefix(st.Access, "cas head ") && strings.HasSuffix(st.Access, " ok") {
